@@ -208,6 +208,17 @@ func ctxState(c gnet.Conn) (*connState, bool) {
 	return cs, ok
 }
 
+// stateOf finds a connection's record without touching the Conn (Context is not among the calls that are safe from
+// other goroutines).
+func (m *monitor) stateOf(c gnet.Conn) *connState {
+	if v, ok := m.openedConns.Load(c); ok {
+		if cs, ok := v.(*connState); ok {
+			return cs
+		}
+	}
+	return nil
+}
+
 func (m *monitor) OnBoot(e gnet.Engine) gnet.Action {
 	m.boots.Add(1)
 	m.logf("OnBoot")
